@@ -396,6 +396,8 @@ func vtRound(r *vfRng, st *vfStats, allCuts bool, round int) []vfCase {
 		base.label, base.keys, base.compress = "blue", []int{1}, false
 	case 1: // no label, two keys, compression
 		base.label, base.keys, base.compress = "", []int{2, 4}, true
+	case 2: // the longest label there is (255 bytes), no encryption
+		base.label, base.keys = vwLabels[5], nil
 	}
 	label, keys = base.label, base.keys
 	ic, hc := base, base
@@ -735,6 +737,7 @@ func (t *vtPipeTransport) FinalAdvertiseAddr(string, int) (net.IP, int, error) {
 func vtJoin(r *vfRng, st *vfStats) vfCase {
 	nw := &vtNet{nodes: map[string]*vtPipeTransport{}}
 	jv, hv, inc := r.chance(25), r.chance(35), r.chance(20)
+	dels := map[string]*vtDelegate{}
 	mk := func(name, addr string, veto bool, pv, dmin, dmax, dcur uint8, members []string) (*Memberlist, *vtMerge) {
 		conf := DefaultLANConfig()
 		conf.Name = name
@@ -747,6 +750,8 @@ func vtJoin(r *vfRng, st *vfStats) vfCase {
 		conf.TCPTimeout = time.Second
 		mg := &vtMerge{veto: veto}
 		conf.Merge = mg
+		dels[name] = &vtDelegate{state: []byte("state-of-" + name)}
+		conf.Delegate = dels[name]
 		m, err := newMemberlist(conf)
 		if err != nil {
 			panic(err)
@@ -786,7 +791,10 @@ func vtJoin(r *vfRng, st *vfStats) vfCase {
 	c := vfCase{Cfg: []int64{13, vwBool(jv), vwBool(hv), vwBool(inc)}}
 	c.Ops = [][]int64{{0}}
 	c.Obs = [][]int64{{vwBool(ok), vwBool(lists(joiner, "host")), vwBool(lists(host, "joiner")), vwBool(lists(joiner, "hm1") && lists(joiner, "hm2")),
-		vwBool(snapshot(joiner) != j0), vwBool(snapshot(host) != h0)}}
+		vwBool(snapshot(joiner) != j0 || (jv && dels["joiner"].calls() > 0)), vwBool(snapshot(host) != h0),
+		// a side that vetoed (or could not verify) the exchange must not have handed the other side's application
+		// state to its delegate either
+		vwBool((jv || inc) && dels["joiner"].calls() > 0), vwBool((hv || inc) && dels["host"].calls() > 0)}}
 	host.Shutdown()
 	joiner.Shutdown()
 	st.Ops++
